@@ -85,6 +85,19 @@ func (m *c11mon) After(g *gw.GW, ev string, sn []gw.SNOut, mq []gw.MQOut, setup 
 		m.ended = g.Returned
 		return vs
 	case st.kind == "C" && st.sn.Type == refsn.DISCONNECT && st.sn.Duration == 0:
+		// "treated as asleep again until it sends CONNECT or DISCONNECT": the reply to a sleeping client's plain
+		// DISCONNECT goes out at once, it is not queued for a wake-up that will never come
+		if m.view == "asleep" {
+			n := 0
+			for _, o := range sn {
+				if o.Err == nil && o.P.Type == refsn.DISCONNECT {
+					n++
+				}
+			}
+			if n != 1 {
+				add("disconnect-of-sleeping-client-not-answered", "DISCONNECT(0) from a sleeping client answered with %v (buffer %v)", sn, g.H.VBuffered())
+			}
+		}
 		m.view = "gone"
 		m.ended = g.Returned
 		return vs
